@@ -232,11 +232,13 @@ class ExternalVariableCollector(NodeVisitor):
 
 class SimpleVariableCollector(NodeVisitor):
     def __init__(self, tree):
-        self.vars = set()
+        # In the order of the source
+        self.vars = []
         self.visit(tree)
 
     def visit_Name(self, node):
-        self.vars.add(node.id)
+        if node.id not in self.vars:
+            self.vars.append(node.id)
 
 
 class PteraTransformer(NodeTransformer):
@@ -725,7 +727,8 @@ class PteraTransformer(NodeTransformer):
             new_body,
             [f"#loop_{v}" for v in svc.vars],
             [],
-            [f"#endloop_{v}" for v in svc.vars],
+            # (so that the begin/end pairs of an iteration are nested)
+            [f"#endloop_{v}" for v in reversed(svc.vars)],
         )
 
         return ast.copy_location(
